@@ -397,6 +397,14 @@ impl TextResourceBuilder {
                     serde_path_to_error::deserialize(deserializer);
                 match result {
                     Ok(mut builder) => {
+                        if builder.text.is_none() {
+                            // the included file has to carry the text itself: without it the
+                            // recursion step below would read this very file again, forever
+                            return Err(StamError::DeserializationError(format!(
+                                "STAM JSON file {} for a text resource does not contain a text",
+                                filename
+                            )));
+                        }
                         //recursion step into the new builder:
                         if self.id.is_some() && builder.id.is_none() {
                             builder.id = self.id;
